@@ -288,17 +288,27 @@ structure CCont where
   f : Evm.Frame
   ro : Nat
   rl : Nat
+  cr : Option Nat := none   -- the callee is the constructor of this new account (CREATE), else a message call
 
-/-- the world the caller continues in: the callee's on success, the call-time world otherwise (rollback) -/
+/-- the world the caller continues in: the callee's on success (a constructor's output installed as the code of the
+    new account), the call-time world otherwise (rollback) -/
 def resumeWorld (k : CCont) (r : Evm.World × Evm.Halt) : Evm.World :=
-  if r.2.isSuccess then r.1 else { k.w with logs := k.w.logs, created := r.1.created }
+  if r.2.isSuccess then (match k.cr with | none => r.1 | some a => r.1.setCode a r.2.data)
+  else { k.w with logs := k.w.logs, created := r.1.created }
 
-/-- the caller after the call: success flag, return area, return data -/
+/-- the caller after the call: success flag, return area, return data; after a CREATE: the new address or 0, and
+    the return data only of a failed constructor (EIP-211) -/
 def resumeFrame (k : CCont) (h : Evm.Halt) : Evm.Frame :=
-  { k.f with stack := (if h.isSuccess then 1 else 0) :: k.f.stack
-             mem := Evm.writeBytes k.f.mem k.ro (h.data.take (min k.rl h.data.length))
-             returndata := h.data
-             pc := k.f.pc + 1 }
+  match k.cr with
+  | none =>
+    { k.f with stack := (if h.isSuccess then 1 else 0) :: k.f.stack
+               mem := Evm.writeBytes k.f.mem k.ro (h.data.take (min k.rl h.data.length))
+               returndata := h.data
+               pc := k.f.pc + 1 }
+  | some a =>
+    { k.f with stack := (if h.isSuccess then a else 0) :: k.f.stack
+               returndata := if h.isSuccess then [] else h.data
+               pc := k.f.pc + 1 }
 
 /-- the frame of a call of the given kind and value from `f` (touched) to `to` -/
 def calleeFrameV (kind : Nat) (f : Evm.Frame) (w : Evm.World) (tgt v ao al : Nat) : Evm.Frame :=
@@ -320,8 +330,8 @@ theorem exec_call0 {p : Evm.Params} {w w1 : Evm.World} {f f1 : Evm.Frame} {kind 
     (hm2 : Evm.memOk p ro rl = true) (hd : ¬ ((f1.touch ao al).touch ro rl).depth + 1 > p.maxDepth) (n : Nat) :
     Evm.exec p (n + 1) w f =
       (Evm.exec p n w1 (calleeFrame kind ((f1.touch ao al).touch ro rl) w1 tgt ao al)).bind fun r =>
-        Evm.exec p n (resumeWorld ⟨w1, (f1.touch ao al).touch ro rl, ro, rl⟩ r)
-          (resumeFrame ⟨w1, (f1.touch ao al).touch ro rl, ro, rl⟩ r.2) := by
+        Evm.exec p n (resumeWorld ⟨w1, (f1.touch ao al).touch ro rl, ro, rl, none⟩ r)
+          (resumeFrame ⟨w1, (f1.touch ao al).touch ro rl, ro, rl, none⟩ r.2) := by
   rw [Evm.exec]
   simp only [hs, hm1, hm2, hd, Bool.not_true, Bool.or_self, Bool.false_eq_true, if_false, ne_eq, not_true_eq_false,
     decide_false, Bool.and_false, Bool.false_and, calleeFrame, calleeFrameV, resumeWorld, resumeFrame]
@@ -349,8 +359,8 @@ theorem halts_call (hs : Evm.step p w f = .call kind w1 f1 tgt 0 ao al ro rl) (h
     (hm2 : Evm.memOk p ro rl = true) (hd : ¬ ((f1.touch ao al).touch ro rl).depth + 1 > p.maxDepth)
     {r1 r : Evm.World × Evm.Halt}
     (h1 : Halts p w1 (calleeFrame kind ((f1.touch ao al).touch ro rl) w1 tgt ao al) r1)
-    (h2 : Halts p (resumeWorld ⟨w1, (f1.touch ao al).touch ro rl, ro, rl⟩ r1)
-      (resumeFrame ⟨w1, (f1.touch ao al).touch ro rl, ro, rl⟩ r1.2) r) :
+    (h2 : Halts p (resumeWorld ⟨w1, (f1.touch ao al).touch ro rl, ro, rl, none⟩ r1)
+      (resumeFrame ⟨w1, (f1.touch ao al).touch ro rl, ro, rl, none⟩ r1.2) r) :
     Halts p w f r := by
   obtain ⟨n1, e1⟩ := h1
   obtain ⟨n2, e2⟩ := h2
@@ -363,8 +373,8 @@ theorem halts_call_inv (hs : Evm.step p w f = .call kind w1 f1 tgt 0 ao al ro rl
     (hm2 : Evm.memOk p ro rl = true) (hd : ¬ ((f1.touch ao al).touch ro rl).depth + 1 > p.maxDepth)
     {r : Evm.World × Evm.Halt} (h : Halts p w f r) :
     ∃ r1, Halts p w1 (calleeFrame kind ((f1.touch ao al).touch ro rl) w1 tgt ao al) r1 ∧
-      Halts p (resumeWorld ⟨w1, (f1.touch ao al).touch ro rl, ro, rl⟩ r1)
-        (resumeFrame ⟨w1, (f1.touch ao al).touch ro rl, ro, rl⟩ r1.2) r := by
+      Halts p (resumeWorld ⟨w1, (f1.touch ao al).touch ro rl, ro, rl, none⟩ r1)
+        (resumeFrame ⟨w1, (f1.touch ao al).touch ro rl, ro, rl, none⟩ r1.2) r := by
   obtain ⟨n, e⟩ := h
   cases n with
   | zero => simp [Evm.exec] at e
@@ -410,8 +420,8 @@ theorem exec_callv (hs : Evm.step p w f = .call kind w1 f1 tgt v ao al ro rl) (h
     Evm.exec p (n + 1) w f =
       (Evm.exec p n (callWorld kind w1 ((f1.touch ao al).touch ro rl).this tgt v)
           (calleeFrameV kind ((f1.touch ao al).touch ro rl) w1 tgt v ao al)).bind fun r =>
-        Evm.exec p n (resumeWorld ⟨w1, (f1.touch ao al).touch ro rl, ro, rl⟩ r)
-          (resumeFrame ⟨w1, (f1.touch ao al).touch ro rl, ro, rl⟩ r.2) := by
+        Evm.exec p n (resumeWorld ⟨w1, (f1.touch ao al).touch ro rl, ro, rl, none⟩ r)
+          (resumeFrame ⟨w1, (f1.touch ao al).touch ro rl, ro, rl, none⟩ r.2) := by
   rw [Evm.exec]
   simp only [hs, hm1, hm2, hstat, hfund, hd, Bool.not_true, Bool.or_self, Bool.false_eq_true, if_false,
     calleeFrameV, callWorld, resumeWorld, resumeFrame]
@@ -452,8 +462,8 @@ theorem halts_callv (hs : Evm.step p w f = .call kind w1 f1 tgt v ao al ro rl) (
     (hd : ¬ ((f1.touch ao al).touch ro rl).depth + 1 > p.maxDepth) {r1 r : Evm.World × Evm.Halt}
     (h1 : Halts p (callWorld kind w1 ((f1.touch ao al).touch ro rl).this tgt v)
       (calleeFrameV kind ((f1.touch ao al).touch ro rl) w1 tgt v ao al) r1)
-    (h2 : Halts p (resumeWorld ⟨w1, (f1.touch ao al).touch ro rl, ro, rl⟩ r1)
-      (resumeFrame ⟨w1, (f1.touch ao al).touch ro rl, ro, rl⟩ r1.2) r) :
+    (h2 : Halts p (resumeWorld ⟨w1, (f1.touch ao al).touch ro rl, ro, rl, none⟩ r1)
+      (resumeFrame ⟨w1, (f1.touch ao al).touch ro rl, ro, rl, none⟩ r1.2) r) :
     Halts p w f r := by
   obtain ⟨n1, e1⟩ := h1
   obtain ⟨n2, e2⟩ := h2
@@ -470,8 +480,8 @@ theorem halts_callv_inv (hs : Evm.step p w f = .call kind w1 f1 tgt v ao al ro r
     (h : Halts p w f r) :
     ∃ r1, Halts p (callWorld kind w1 ((f1.touch ao al).touch ro rl).this tgt v)
         (calleeFrameV kind ((f1.touch ao al).touch ro rl) w1 tgt v ao al) r1 ∧
-      Halts p (resumeWorld ⟨w1, (f1.touch ao al).touch ro rl, ro, rl⟩ r1)
-        (resumeFrame ⟨w1, (f1.touch ao al).touch ro rl, ro, rl⟩ r1.2) r := by
+      Halts p (resumeWorld ⟨w1, (f1.touch ao al).touch ro rl, ro, rl, none⟩ r1)
+        (resumeFrame ⟨w1, (f1.touch ao al).touch ro rl, ro, rl, none⟩ r1.2) r := by
   obtain ⟨n, e⟩ := h
   cases n with
   | zero => simp [Evm.exec] at e
@@ -483,6 +493,165 @@ theorem halts_callv_inv (hs : Evm.step p w f = .call kind w1 f1 tgt v ao al ro r
     | some r1 =>
       rw [hx] at e
       exact ⟨r1, ⟨n, hx⟩, ⟨n, e⟩⟩
+
+end
+
+
+/-! ### CREATE -/
+
+theorem codeOf_setCode (w : Evm.World) (a : Nat) (c : List Nat) (x : Nat) :
+    (w.setCode a c).codeOf x = if x = a then some c else w.codeOf x := by
+  unfold Evm.World.setCode Evm.World.codeOf
+  by_cases h : x = a
+  · subst h; simp
+  · have h1 : ((a, c).1 == x) = false := by simpa using fun e => h e.symm
+    simp only [List.find?_cons, h1, if_neg h]
+    congr 1
+    induction w.code with
+    | nil => rfl
+    | cons e l ih =>
+      by_cases h2 : e.1 = a
+      · have h3 : (e.1 == x) = false := by rw [beq_eq_false_iff_ne, h2]; exact fun e' => h e'.symm
+        have h4 : (a == x) = false := by rw [← h2]; exact h3
+        simp [List.filter_cons, h2, List.find?_cons, h4, ih]
+      · have h3 : (e.1 == a) = false := by rw [beq_eq_false_iff_ne]; exact h2
+        simp only [List.filter_cons, h3, Bool.not_false, if_true, List.find?_cons]
+        cases (e.1 == x) <;> simp [ih]
+
+/-- the world the constructor of `addr` starts in: the account exists with empty code, the value is moved, its
+    storage and transient storage are empty -/
+def createWorld (w : Evm.World) (me addr v : Nat) : Evm.World :=
+  { (w.setCode addr []).transfer me addr v with
+    storage := ((w.setCode addr []).transfer me addr v).storage.filter (fun e => e.1.1 != addr),
+    transient := ((w.setCode addr []).transfer me addr v).transient.filter (fun e => e.1.1 != addr) }
+
+/-- the constructor frame -/
+def createFrameC (f : Evm.Frame) (addr v : Nat) (init : List Nat) : Evm.Frame :=
+  { this := addr, caller := f.this, value := v, calldata := [], code := init, codeAddr := addr, depth := f.depth + 1 }
+
+section
+variable {p : Evm.Params} {w w1 : Evm.World} {f f1 : Evm.Frame} {v off len salt : Nat}
+
+theorem evm_create (hop : (f.code[f.pc]?).getD 0 = 0xf0) (hl : ¬ f.stack.length > 1024) {s : List Nat}
+    (hst : f.stack = v :: off :: len :: s) (hns : f.isStatic = false) :
+    Evm.step p w f = .create 0xf0 w { f with stack := s } v off len 0 := by
+  unfold Evm.step; simp only [hop, hl, ↓reduceIte]; simp only [hst, hns, Bool.false_eq_true, ↓reduceIte]
+
+theorem evm_create_static (hop : (f.code[f.pc]?).getD 0 = 0xf0) (hl : ¬ f.stack.length > 1024)
+    (hst : 3 ≤ f.stack.length) (hs : f.isStatic = true) : Evm.step p w f = .halt w .writeInStatic := by
+  unfold Evm.step; simp only [hop, hl, ↓reduceIte]
+  match h : f.stack, hst with
+  | _ :: _ :: _ :: _, _ => simp only [hs, ↓reduceIte]
+
+theorem evm_create_short (hop : (f.code[f.pc]?).getD 0 = 0xf0) (hl : ¬ f.stack.length > 1024)
+    (hst : f.stack.length < 3) : Evm.step p w f = .halt w .stackUnderflow := by
+  unfold Evm.step; simp only [hop, hl, ↓reduceIte]
+  match h : f.stack, hst with
+  | [], _ => rfl
+  | [_], _ => rfl
+  | [_, _], _ => rfl
+
+/-- the memory check fails: OutOfGas -/
+theorem exec_create_oog (hs : Evm.step p w f = .create 0xf0 w1 f1 v off len salt) (hm : Evm.memOk p off len = false)
+    (n : Nat) : Evm.exec p (n + 1) w f = some (w1, .outOfGas) := by
+  rw [Evm.exec]; simp only [hs, hm, Bool.not_false, if_true]
+
+/-- a CREATE that is not carried out (insufficient funds, depth, address taken): 0, no return data; the attempt
+    still uses up an address -/
+theorem exec_create_fail (hs : Evm.step p w f = .create 0xf0 w1 f1 v off len salt) (hm : Evm.memOk p off len = true)
+    (hc : w1.balanceOf (f1.touch off len).this < v ∨ (f1.touch off len).depth + 1 > p.maxDepth ∨
+      (({ w1 with created := w1.created + 1 } : Evm.World).codeOf (p.newAddress (w1.created + 1))).isSome = true)
+    (n : Nat) :
+    Evm.exec p (n + 1) w f =
+      Evm.exec p n { w1 with created := w1.created + 1 } (failFrame (f1.touch off len)) := by
+  rw [Evm.exec]
+  simp only [hs, hm, Bool.not_true, Bool.false_eq_true, if_false, if_true, failFrame]
+  by_cases h1 : w1.balanceOf (f1.touch off len).this < v
+  · simp only [h1, if_true]
+  · simp only [h1, if_false]
+    by_cases h2 : (f1.touch off len).depth + 1 > p.maxDepth
+    · simp only [h2, if_true]
+    · simp only [h2, if_false]
+      rcases hc with hc | hc | hc
+      · exact absurd hc h1
+      · exact absurd hc h2
+      · simp only [hc, if_true]
+
+theorem exec_create (hs : Evm.step p w f = .create 0xf0 w1 f1 v off len salt) (hm : Evm.memOk p off len = true)
+    (hfund : ¬ w1.balanceOf (f1.touch off len).this < v) (hd : ¬ (f1.touch off len).depth + 1 > p.maxDepth)
+    (hcol : (({ w1 with created := w1.created + 1 } : Evm.World).codeOf (p.newAddress (w1.created + 1))).isSome = false)
+    (n : Nat) :
+    Evm.exec p (n + 1) w f =
+      (Evm.exec p n (createWorld { w1 with created := w1.created + 1 } (f1.touch off len).this
+          (p.newAddress (w1.created + 1)) v)
+        (createFrameC (f1.touch off len) (p.newAddress (w1.created + 1)) v
+          (Evm.readBytes (f1.touch off len).mem off len))).bind fun r =>
+        Evm.exec p n (resumeWorld ⟨{ w1 with created := w1.created + 1 }, f1.touch off len, 0, 0,
+            some (p.newAddress (w1.created + 1))⟩ r)
+          (resumeFrame ⟨{ w1 with created := w1.created + 1 }, f1.touch off len, 0, 0,
+            some (p.newAddress (w1.created + 1))⟩ r.2) := by
+  rw [Evm.exec]
+  simp only [hs, hm, hfund, hd, hcol, Bool.not_true, Bool.false_eq_true, if_false, if_true, createWorld, createFrameC,
+    resumeWorld, resumeFrame]
+  split
+  · rename_i heq; rw [heq]; rfl
+  · rename_i w2 h heq
+    rw [heq]
+    cases h <;> rfl
+
+theorem halts_create_oog (hs : Evm.step p w f = .create 0xf0 w1 f1 v off len salt) (hm : Evm.memOk p off len = false)
+    (r : Evm.World × Evm.Halt) : Halts p w f r ↔ r = (w1, .outOfGas) := by
+  constructor
+  · rintro ⟨n, e⟩
+    cases n with
+    | zero => simp [Evm.exec] at e
+    | succ n => rw [exec_create_oog hs hm] at e; exact (Option.some.inj e).symm
+  · rintro rfl; exact ⟨1, exec_create_oog hs hm 0⟩
+
+theorem halts_create_fail (hs : Evm.step p w f = .create 0xf0 w1 f1 v off len salt) (hm : Evm.memOk p off len = true)
+    (hc : w1.balanceOf (f1.touch off len).this < v ∨ (f1.touch off len).depth + 1 > p.maxDepth ∨
+      (({ w1 with created := w1.created + 1 } : Evm.World).codeOf (p.newAddress (w1.created + 1))).isSome = true)
+    (r : Evm.World × Evm.Halt) :
+    Halts p w f r ↔ Halts p { w1 with created := w1.created + 1 } (failFrame (f1.touch off len)) r := by
+  constructor
+  · rintro ⟨n, e⟩
+    cases n with
+    | zero => simp [Evm.exec] at e
+    | succ n => rw [exec_create_fail hs hm hc] at e; exact ⟨n, e⟩
+  · rintro ⟨n, e⟩
+    exact ⟨n + 1, by rw [exec_create_fail hs hm hc]; exact e⟩
+
+theorem halts_create (hs : Evm.step p w f = .create 0xf0 w1 f1 v off len salt) (hm : Evm.memOk p off len = true)
+    (hfund : ¬ w1.balanceOf (f1.touch off len).this < v) (hd : ¬ (f1.touch off len).depth + 1 > p.maxDepth)
+    (hcol : (({ w1 with created := w1.created + 1 } : Evm.World).codeOf (p.newAddress (w1.created + 1))).isSome = false)
+    (r : Evm.World × Evm.Halt) :
+    Halts p w f r ↔
+      ∃ r1, Halts p (createWorld { w1 with created := w1.created + 1 } (f1.touch off len).this
+            (p.newAddress (w1.created + 1)) v)
+          (createFrameC (f1.touch off len) (p.newAddress (w1.created + 1)) v
+            (Evm.readBytes (f1.touch off len).mem off len)) r1 ∧
+        Halts p (resumeWorld ⟨{ w1 with created := w1.created + 1 }, f1.touch off len, 0, 0,
+            some (p.newAddress (w1.created + 1))⟩ r1)
+          (resumeFrame ⟨{ w1 with created := w1.created + 1 }, f1.touch off len, 0, 0,
+            some (p.newAddress (w1.created + 1))⟩ r1.2) r := by
+  constructor
+  · rintro ⟨n, e⟩
+    cases n with
+    | zero => simp [Evm.exec] at e
+    | succ n =>
+      rw [exec_create hs hm hfund hd hcol] at e
+      cases hx : Evm.exec p n (createWorld { w1 with created := w1.created + 1 } (f1.touch off len).this
+            (p.newAddress (w1.created + 1)) v)
+          (createFrameC (f1.touch off len) (p.newAddress (w1.created + 1)) v
+            (Evm.readBytes (f1.touch off len).mem off len)) with
+      | none => rw [hx] at e; cases e
+      | some r1 =>
+        rw [hx] at e
+        exact ⟨r1, ⟨n, hx⟩, ⟨n, e⟩⟩
+  · rintro ⟨r1, ⟨n1, e1⟩, ⟨n2, e2⟩⟩
+    refine ⟨max n1 n2 + 1, ?_⟩
+    rw [exec_create hs hm hfund hd hcol, exec_mono_le (Nat.le_max_left n1 n2) e1]
+    exact exec_mono_le (Nat.le_max_right n1 n2) e2
 
 end
 
@@ -535,7 +704,7 @@ theorem runStack_call {w w1 : Evm.World} {f f1 : Evm.Frame} {kind tgt ao al ro r
     (ks : List CCont) (r : Evm.World × Evm.Halt) :
     RunStack p w f ks r ↔
       RunStack p w1 (calleeFrame kind ((f1.touch ao al).touch ro rl) w1 tgt ao al)
-        (⟨w1, (f1.touch ao al).touch ro rl, ro, rl⟩ :: ks) r := by
+        (⟨w1, (f1.touch ao al).touch ro rl, ro, rl, none⟩ :: ks) r := by
   cases ks with
   | nil =>
     simp only [RunStack]
@@ -564,7 +733,7 @@ theorem runStack_callv {w w1 : Evm.World} {f f1 : Evm.Frame} {kind tgt v ao al r
     RunStack p w f ks r ↔
       RunStack p (callWorld kind w1 ((f1.touch ao al).touch ro rl).this tgt v)
         (calleeFrameV kind ((f1.touch ao al).touch ro rl) w1 tgt v ao al)
-        (⟨w1, (f1.touch ao al).touch ro rl, ro, rl⟩ :: ks) r := by
+        (⟨w1, (f1.touch ao al).touch ro rl, ro, rl, none⟩ :: ks) r := by
   cases ks with
   | nil =>
     simp only [RunStack]
@@ -596,6 +765,35 @@ theorem runStack_call_insufficient {w w1 : Evm.World} {f f1 : Evm.Frame} {kind t
     constructor
     · rintro ⟨r1, h1, h2⟩; exact ⟨r1, (halts_call_insufficient hs hm1 hm2 hstat hfund r1).1 h1, h2⟩
     · rintro ⟨r1, h1, h2⟩; exact ⟨r1, (halts_call_insufficient hs hm1 hm2 hstat hfund r1).2 h1, h2⟩
+
+
+/-- generic: an equivalence of `Halts` of the running frame lifts to the frame stack -/
+theorem runStack_of_halts {w w' : Evm.World} {f f' : Evm.Frame}
+    (h : ∀ r, Halts p w f r ↔ Halts p w' f' r) (ks : List CCont) (r : Evm.World × Evm.Halt) :
+    RunStack p w f ks r ↔ RunStack p w' f' ks r := by
+  cases ks with
+  | nil => exact h r
+  | cons k ks =>
+    simp only [RunStack]
+    constructor
+    · rintro ⟨r1, h1, h2⟩; exact ⟨r1, (h r1).1 h1, h2⟩
+    · rintro ⟨r1, h1, h2⟩; exact ⟨r1, (h r1).2 h1, h2⟩
+
+/-- generic: a step that runs a sub-frame and resumes pushes a suspended caller -/
+theorem runStack_push {w w' : Evm.World} {f f' : Evm.Frame} {kc : CCont}
+    (h : ∀ r, Halts p w f r ↔ ∃ r1, Halts p w' f' r1 ∧ Halts p (resumeWorld kc r1) (resumeFrame kc r1.2) r)
+    (ks : List CCont) (r : Evm.World × Evm.Halt) :
+    RunStack p w f ks r ↔ RunStack p w' f' (kc :: ks) r := by
+  cases ks with
+  | nil => simp only [RunStack]; exact h r
+  | cons k ks =>
+    simp only [RunStack]
+    constructor
+    · rintro ⟨r2, h2, h3⟩
+      obtain ⟨r1, h1, h1'⟩ := (h r2).1 h2
+      exact ⟨r1, h1, r2, h1', h3⟩
+    · rintro ⟨r1, h1, r2, h1', h3⟩
+      exact ⟨r2, (h r2).2 ⟨r1, h1, h1'⟩, h3⟩
 
 /-- a call that fails the reference's memory check: the running frame halts with OutOfGas -/
 theorem runStack_call_oog_nil {w w1 : Evm.World} {f f1 : Evm.Frame} {kind tgt v ao al ro rl : Nat}
